@@ -75,11 +75,11 @@ def c03(tier):
 
 
 def c06(tier):
-    return [R("probstate")]
+    return [R("probstate"), R("fitgrid")]
 
 
 def c07(tier):
-    return [R("probstate")]
+    return [R("probstate"), R("fitgrid")]
 
 
 def c10(tier):
@@ -87,7 +87,7 @@ def c10(tier):
 
 
 def c11(tier):
-    return [R("probstate", rayon_threads=4)]
+    return [R("probstate", rayon_threads=4), R("fitgrid", rayon_threads=4)]
 
 
 PLAN = {
